@@ -394,7 +394,120 @@ def rule_comments(ctx: Ctx) -> None:
             s["rule"] = "C04.R6"
 
 
-RULES = [rule_anchor, rule_tables, rule_funnel, rule_delegation, rule_comments]
+# (module:qualname, normalised interpolated value) -> reason raw text inside quotes cannot carry a quote
+REVIEWED_RAW_QUOTED: dict[tuple[str, str], str] = {
+    ("sqlglot.generators.duckdb:DuckDBGenerator.numbertostr_sql", "fmt.name"):
+        "guarded by `fmt.is_int` in the same statement's condition: the text is an integer literal (digits only)",
+}
+
+
+def _quoted_interpolations(js: ast.JoinedStr) -> list[ast.AST]:
+    """values interpolated while the f-string's constant text has an odd number of single quotes open"""
+    out = []
+    open_ = False
+    for v in js.values:
+        if isinstance(v, ast.Constant) and isinstance(v.value, str):
+            if v.value.count("'") % 2 == 1:
+                open_ = not open_
+        elif isinstance(v, ast.FormattedValue) and open_:
+            out.append(v.value)
+    return out
+
+
+def rule_raw_quotes(ctx: Ctx) -> None:
+    ctx.rule(
+        "C04.R9",
+        "no raw text between hand-written quotes: in generator code an f-string that opens a single quote and interpolates a value inside it must interpolate an "
+        "escaped value (escape_str / an explicit quote replacement), rendered SQL of a non-text node, or a constant — raw node text (.name / .this / .text() / "
+        "args.get) between literal quotes lets the value terminate its own quoting",
+    )
+    repo = ctx.repo
+    mods = [m for n, m in repo.modules.items() if (n == "sqlglot.generator" or n.startswith("sqlglot.generators.") or n == "sqlglot.dialects.dialect") and n != "sqlglot.generators.python"]
+    MSG_CALLS = ("unsupported", "warning", "error", "debug", "info", "raise_error")
+    n = 0
+    for m in mods:
+        for js in m.of_type(ast.JoinedStr):
+            vals = _quoted_interpolations(js)
+            if not vals:
+                continue
+            # messages are not SQL
+            p_ = m.parent(js)
+            in_msg = False
+            while p_ is not None and not isinstance(p_, ast.stmt):
+                if isinstance(p_, ast.Call) and ((call_name(p_) or "").split(".")[-1] in MSG_CALLS or (call_name(p_) or "").endswith(("Error", "Warning"))):
+                    in_msg = True
+                p_ = m.parent(p_)
+            st = m.enclosing_stmt(js)
+            if in_msg or isinstance(st, ast.Raise):
+                continue
+            f = m.enclosing_func(js)
+            c = m.enclosing_class(js)
+            where = f.key if f else (c.key if c else m.name)
+            binds: dict[str, list[ast.AST]] = {}
+            if f is not None:
+                for a_ in walk_no_nested(f.node):
+                    if isinstance(a_, ast.Assign) and len(a_.targets) == 1 and isinstance(a_.targets[0], ast.Name):
+                        binds.setdefault(a_.targets[0].id, []).append(a_.value)
+
+            def classify(e: ast.AST, depth: int = 0) -> str:
+                """escaped | sql | const | raw | unknown"""
+                if isinstance(e, ast.Constant):
+                    return "const"
+                if isinstance(e, ast.Call):
+                    cn = call_name(e) or ""
+                    last = cn.split(".")[-1] if cn else (e.func.attr if isinstance(e.func, ast.Attribute) else "")
+                    if last in ("escape_str", "_replace_line_breaks"):
+                        return "escaped"
+                    if last == "replace" and e.args and isinstance(e.args[0], ast.Constant) and "'" in str(e.args[0].value):
+                        return "escaped"
+                    if last in ("sql", "expressions", "func", "format_time", "format_args", "json_path_part", "no_identify"):
+                        return "sql"
+                    if last in ("text",):
+                        return "raw"
+                    if last in ("lower", "upper", "strip", "replace", "format", "get", "join") and isinstance(e.func, ast.Attribute):
+                        inner = classify(e.func.value, depth + 1)
+                        if last == "get":
+                            return "raw"
+                        return inner
+                    return "unknown"
+                if isinstance(e, ast.Attribute) and e.attr in ("name", "this", "alias", "alias_or_name", "value", "output_name"):
+                    return "raw"
+                if isinstance(e, ast.Name) and e.id in binds and depth < 3:
+                    # the binding that textually precedes the f-string most closely
+                    prev = [b_ for b_ in binds[e.id] if b_.lineno <= js.lineno]
+                    if prev:
+                        return classify(max(prev, key=lambda b_: (b_.lineno, b_.col_offset)), depth + 1)
+                    return "unknown"
+                if isinstance(e, ast.IfExp):
+                    ks = {classify(e.body, depth + 1), classify(e.orelse, depth + 1)}
+                    for k_ in ("raw", "unknown", "sql", "escaped", "const"):
+                        if k_ in ks:
+                            return k_
+                if isinstance(e, ast.BoolOp):
+                    ks = {classify(v_, depth + 1) for v_ in e.values}
+                    return "raw" if "raw" in ks else sorted(ks)[0]
+                return "unknown"
+
+            for v in vals:
+                n += 1
+                kind = classify(v)
+                inst = f"{where}|{norm(js, 70)}|{norm(v, 40)}"
+                if kind in ("escaped", "const"):
+                    ctx.ok(inst, {"value": norm(v, 40), "kind": kind})
+                elif kind == "raw":
+                    if (where, norm(v, 40)) in REVIEWED_RAW_QUOTED:
+                        ctx.ok(inst, {"value": norm(v, 40), "reviewed": REVIEWED_RAW_QUOTED[(where, norm(v, 40))]})
+                    else:
+                        ctx.fail(m, js, where, f"{norm(js, 70)}",
+                                 f"`{norm(v, 40)}` is raw node text placed between hand-written single quotes: a value containing a quote ends the literal early "
+                                 f"(the rest is read as SQL) — pass it through self.escape_str(...) or build a Literal")
+                else:
+                    ctx.ok(inst, {"value": norm(v, 40), "kind": kind, "decided": kind == "sql"})
+    ctx.count("quoted_interpolations", n)
+    ctx.min_instances("quoted_interpolations", n, 8)
+
+
+RULES = [rule_anchor, rule_tables, rule_funnel, rule_delegation, rule_comments, rule_raw_quotes]
 EXPLANATION = (
     "Writer/reader table agreement decided exhaustively for every dialect class: the generator's escaping tables "
     "(QUOTE_END, STRING_ESCAPES[0], ESCAPED_SEQUENCES, identifier doubling and identifier_sql's constant replacements) "
